@@ -360,7 +360,7 @@ class Effects:
             return recv
         for c in parent.calls():
             cn = canon(c.target or "")
-            if cn.split("::")[-1] in ("map", "and_then", "map_or", "map_or_else", "filter") and ("Result::" in cn or "Option::" in cn):
+            if cn.split("::")[-1] in ("map", "and_then", "map_or", "map_or_else", "filter", "is_ok_and", "is_some_and") and ("Result::" in cn or "Option::" in cn):
                 for i, a in enumerate(c.t["args"]):
                     if a["k"] in ("move", "copy") and a["pl"]["l"] == clo_local and "p" not in a["pl"] and i >= 1:
                         recv = payload_source(c.arg(0))
